@@ -15,18 +15,26 @@ import (
 
 // verifSecretURN: a telegram URN whose path (4 digits) and display (2 letters)
 // are arbitrary: the identifying part that redaction must hide.
-func verifSecretURN(name string) urns.URN {
+//
+// shape 0: path and display; 1: path, a query (as URNs loaded from a database
+// carry: id, priority) and display; 2: path and query only
+func verifSecretURN(name string, shape int) urns.URN {
 	b := []byte("telegram:")
 	for i := 0; i < 4; i++ {
 		d := zzverif.Byte(name + "-path")
 		zzverif.Assume(d >= '0' && d <= '9')
 		b = append(b, d)
 	}
-	b = append(b, '#')
-	for i := 0; i < 2; i++ {
-		d := zzverif.Byte(name + "-display")
-		zzverif.Assume(d >= 'a' && d <= 'z')
-		b = append(b, d)
+	if shape > 0 {
+		b = append(b, "?id=20121&priority=50"...)
+	}
+	if shape < 2 {
+		b = append(b, '#')
+		for i := 0; i < 2; i++ {
+			d := zzverif.Byte(name + "-display")
+			zzverif.Assume(d >= 'a' && d <= 'z')
+			b = append(b, d)
+		}
 	}
 	return urns.URN(string(b))
 }
@@ -136,10 +144,14 @@ func verifC19RunRefreshed(policy envs.RedactionPolicy, urn urns.URN, named bool,
 // fields, input, parent, child, run, trigger, resume, results, node, …) is
 // equal for every pair of secrets; without the policy a difference is
 // reachable (non-vacuity witness).
-// cover: redacted-equal, unredacted-differs, unnamed-contact, redaction-switched-on-at-resume
+// cover: redacted-equal, unredacted-differs, unnamed-contact, redaction-switched-on-at-resume, urn-with-query-and-display
 func VerifC19_Context() {
 	zzverif.Unwind(4000) // the comparison loops below run once per rendered value
-	a, b := verifSecretURN("secret-a"), verifSecretURN("secret-b")
+	shape := zzverif.Choice("urn-shape", 3)
+	if shape == 1 {
+		zzverif.Cover("urn-with-query-and-display")
+	}
+	a, b := verifSecretURN("secret-a", shape), verifSecretURN("secret-b", shape)
 	named := zzverif.Choice("contact-has-name", 2) == 1
 	if !named {
 		zzverif.Cover("unnamed-contact")
